@@ -180,6 +180,11 @@ func RunC15(r *core.Run) {
 			}
 			// entry points agree
 			var r1, r2 sipsp.PsipURI
+			if rr.Bool() {
+				// the caller's result structures were used before (they are outputs only)
+				sipsp.ParseURI(c, &r1)
+				sipsp.ParseURI([]byte("sips:old:pw@[::9]:5099;ttl=3;maddr=h?old=1"), &r2)
+			}
 			var peq bool
 			var perr sipsp.ErrorURI
 			pan, _, _ := core.Guard(func() { peq, perr, _ = sipsp.URIParseCmp(a, b, f, &r1, &r2) })
